@@ -19,7 +19,7 @@ RULE = (
     "operation sequences over {add item to this batch, add item through the kind's active-batch registry, flush, "
     "cancel, cancel(error), cancel(falsy error object), last item.value(), first item.error(), batch.value(), batch.error(), state queries} x flush "
     "body mode {sets all, sets some, sets none, sets item errors, raises Exception part-way, raises BaseException "
-    "part-way, creates a new item while flushing, sets an item twice} on a BatchBase subclass, and the same operations "
+    "part-way, creates a new item while flushing, sets an item twice, cancels its own batch after serving the first item and returns normally} on a BatchBase subclass, and the same operations "
     "on the built-in DebugBatch/DebugBatchItem: ALL sequences up to length 4 (thorough: 5) plus seeded random longer "
     "ones, both builds. Every result/exception is compared with a reference state machine (pending -> flushed | "
     "cancelled, per-item outcomes); a subscriber on the batch's on_computed checks every item is already complete; "
@@ -31,7 +31,7 @@ ASSUMPTIONS = ["items are not completed by hand before the flush (that is C10's 
 UNIT_TIMEOUT = {"quick": 300, "thorough": 2400}
 
 OPS = ["add", "add_reg", "flush", "cancel", "cancel_err", "cancel_falsy", "item_value", "item_error", "batch_value", "batch_error", "query"]
-MODES = ["all", "some", "none", "itemerr", "raise", "raise_base", "raise_falsy", "spawn", "double"]
+MODES = ["all", "some", "none", "itemerr", "raise", "raise_base", "raise_falsy", "spawn", "double", "cancel_self"]
 
 
 def plan(tier, seed, build, scale):
@@ -105,6 +105,14 @@ def classes():
                 elif m == "double":
                     it.set_value(("iv", i))
                     it.set_value(("iv2", i))
+                elif m == "cancel_self":
+                    # the backend served the first request, lost the connection, gives up on the rest
+                    if i == 0:
+                        it.set_value(("iv", i))
+                    else:
+                        self.flush_exc = UserErr(("connection-lost",))
+                        self.cancel(self.flush_exc)
+                        return
             if m in ("raise", "raise_base", "raise_falsy") and len(items) <= 1:
                 self.flush_exc = {"raise": UserErr, "raise_base": UserBaseErr, "raise_falsy": FalsyErr}[m](("flush",))
                 raise self.flush_exc
@@ -169,6 +177,12 @@ class Model(object):
                 else:
                     out.append(("exc", ("FutureIsAlreadyComputed",)))
                 berr = ("FutureIsAlreadyComputed",)
+            elif m == "cancel_self":
+                if i == 0:
+                    out.append(("val", ("iv", 0)))
+                else:
+                    out.append(("exc", ("UserErr", ("connection-lost",))))
+                    berr = ("UserErr", ("connection-lost",))
         if m in ("raise", "raise_base", "raise_falsy") and n <= 1:
             berr = ({"raise": "UserErr", "raise_base": "UserBaseErr", "raise_falsy": "FalsyErr"}[m], ("flush",))
             # the only item was set before the raise happens? no: with <=1 items the body sets item 0 first
